@@ -96,8 +96,12 @@ def run_fide(ctx):
     try:
         n_cases = 150 if ctx.tier == "quick" else 2500
         sizes = [1, 2, 3, 5, 8, 13] if ctx.tier == "quick" else [1, 2, 5, 12, 30, 80]
-        for i in range(n_cases):
-            m = fide_model(g, g.rng.choice(sizes))
+        def models():
+            for i in range(n_cases):
+                yield fide_model(g, g.rng.choice(sizes))
+            yield from gen.nest_models(FIDE_OPS, chunk=4)
+            yield from gen.case_twin_models()
+        for m in models():
             req = sx.dumps(tag("fide_write", spec.fm_sx(m)))
             mrep = sx.loads(ctx.model.call_raw(req))
             if mrep[0] == "ok":
